@@ -17,6 +17,12 @@ rm -rf replays/C11
 f=$(ls replays/C11/*.json 2>/dev/null | head -1)
 if [ -n "$f" ] && grep -q 'request body too large' $f; then mv $f replays/known/C11-report-larger-than-server-limit.json; else echo "known finding for C11 not regenerated"; fi
 rm -rf replays/C11
+# C09: suspended past the end (window suspend-resume)
+rm -rf replays/C09
+./bin/vcheck C09 --noquarantine --runs 4000 2>&1 | grep -A1 "^VIOLATION" | cut -c1-160
+f=$(ls replays/C09/*.json 2>/dev/null | head -1)
+if [ -n "$f" ] && grep -q 'rotation-after-suspend' $f; then mv $f replays/known/C09-suspended-past-the-end.json; else echo "known finding for C09 not regenerated"; fi
+rm -rf replays/C09
 python3 - <<'PY'
 import json,subprocess
 k=json.load(open('/verif/known_findings.json'))
